@@ -41,7 +41,7 @@ CFG = dict(
     checker="check_case",
     harness_dirs=["C19", "C38"],
     n=dict(quick=200, thorough=6000),
-    shard=50,
+    shard=25,
     rule="each case = a fresh in-memory datastore (C19 membackend) with an IPv4 pool (2-16 addresses, or none) and an IPv6 pool "
          "(2-8 addresses, or none), 1-3 containers (Kubernetes identifiers ns/pod + sandbox id, possibly sharing a pod, or plain CNI "
          "container ids), optional pre-existing allocations under a legacy (v2.x) handle, the primary handle or an unrelated handle, "
